@@ -293,3 +293,7 @@ def run(chk):
     ob_build_shape(chk, P)
     ob_precedence(chk, P)
     ob_tags(chk, P)
+    # the per-frame lookup algebra (own key first, otherwise the parent, with the same path) is what "layer precedence" rests on: shared with C18
+    from checks import C18
+    for ft in C18.FRAMES:
+        C18.ob_lookup(chk, P, ft, 2)
